@@ -168,7 +168,10 @@ def w_expand(cfg, tier):
                         dec.kwargs.get('error_rate') is sim.error_rate
                     rec_ok = sim._inputs['code']['name'] == code.kind and \
                         sim._inputs['decoder']['parameters'] == {'osd': dec.kwargs.get('osd')}
-                    got.append((code.kind, cvals, nvals, [dec.kwargs.get('osd')], sim.error_rate, wired, rec_ok))
+                    osd = dec.kwargs.get('osd')
+                    if osd is None:                  # parameter not handed to the decoder at all: a value no request names
+                        osd = -1000003
+                    got.append((code.kind, cvals, nvals, [osd], sim.error_rate, wired, rec_ok))
                 n_runs = len(bs.get_runs(data)) if not isinstance(data.get('ranges'), list) else None
                 return got, want, n_runs
             ps = eng.explore(fn)
